@@ -54,3 +54,250 @@ def gen_sec():
         body += "def durationUs : List (String × Nat) := []\n"
     body += "end Generated.Sec\n"
     write_if_changed("Sec.lean", body)
+
+
+# ------------------------------------------------------------------------------------------------ shared-state writes
+#
+# The Lean model of `VerifyService.verify` is a pure function of (station state, message): `Station.verifyMsg`.
+# That is only faithful to the source if one call leaves nothing behind that another (possibly overlapping) call
+# reads, other than the state the model carries in `Station` (the four library dictionaries and the P2PCD
+# bookkeeping of the sign service).  The pass below lists, for every function the verification path can reach,
+# every store to state that outlives the call; `Props.C03.reentrancy_matches_source` compares the list with the
+# writes the model accounts for (`FlexModel.Sec.modelledWrites`) by `decide`.
+#
+# Nothing is imported or executed.  The analysis is syntactic and deliberately over-approximating where that is
+# cheap (calls are resolved by method NAME over all analysed classes), and it is NOT complete: a store through an
+# object reached in a way the pass does not follow (a local bound to a call result, `getattr` with a computed name,
+# state kept inside asn1tools / ecdsa objects) is not seen -- the concurrency correspondence of harness/props/c03.py
+# is the second line.
+
+WRITE_FILES = ["security/verify_service.py", "security/certificate_library.py", "security/certificate.py",
+               "security/sign_service.py", "security/ecdsa_backend.py"]
+WRITE_ROOT = ("VerifyService", "verify")
+MUTATORS = {"append", "extend", "insert", "pop", "popitem", "remove", "clear", "update", "setdefault", "add", "discard",
+            "sort", "reverse", "appendleft", "popleft", "extendleft", "rotate", "difference_update",
+            "intersection_update", "symmetric_difference_update", "__setitem__", "__delitem__", "__setattr__",
+            "__delattr__", "__iadd__", "__ior__"}
+SETATTR_FUNCS = {"setattr", "delattr"}
+
+
+def _chain(node):
+    """(root Name id, dotted attribute path, went-through-subscript/call?) of an expression like `a.b[c].d`, else None"""
+    path = []
+    while True:
+        if isinstance(node, ast.Attribute):
+            path.append(node.attr)
+            node = node.value
+        elif isinstance(node, ast.Subscript):
+            path.append("[]")
+            node = node.value
+        elif isinstance(node, ast.Name):
+            return node.id, tuple(reversed(path))
+        elif isinstance(node, ast.Call) and isinstance(node.func, ast.Name) and node.func.id == "vars" \
+                and len(node.args) == 1 and isinstance(node.args[0], ast.Name):
+            path.append("__dict__")
+            return node.args[0].id, tuple(reversed(path))
+        else:
+            return None
+
+
+def _dotted(path):
+    return ".".join(p for p in path if p != "[]") or "<self>"
+
+
+class _FnWrites:
+    """stores of ONE function that outlive the call: (kind, target) pairs
+
+    kinds: set / aug / del (attribute of self, directly or through an alias / a chain `self.a.b`), setitem / delitem
+    (subscript of such an attribute), mut:<method> (mutating container method on it), setattr (setattr/delattr/
+    __setattr__ with self as object), ext-set / ext-del (attribute store on another object: parameter, local bound to
+    something shared), global / global-setitem / global-mut:<m> (module state)"""
+
+    def __init__(self, fn, is_method):
+        self.fn = fn
+        self.selfname = fn.args.args[0].arg if (is_method and fn.args.args) else None
+        self.out = set()
+        self.calls = set()
+        self.alias = {}
+        if self.selfname:
+            self.alias[self.selfname] = ()
+        params = {a.arg for a in fn.args.args + fn.args.kwonlyargs + fn.args.posonlyargs}
+        if fn.args.vararg:
+            params.add(fn.args.vararg.arg)
+        if fn.args.kwarg:
+            params.add(fn.args.kwarg.arg)
+        self.locals = set(params)
+        self.globals = set()
+        for n in ast.walk(fn):
+            if isinstance(n, ast.Name) and isinstance(n.ctx, (ast.Store, ast.Del)):
+                self.locals.add(n.id)
+            elif isinstance(n, (ast.Global, ast.Nonlocal)):
+                self.globals |= set(n.names)
+            elif isinstance(n, (ast.Import, ast.ImportFrom)):
+                self.locals |= {(a.asname or a.name).split(".")[0] for a in n.names}
+            elif isinstance(n, ast.ExceptHandler) and n.name:
+                self.locals.add(n.name)
+        self.locals -= self.globals
+        # aliases of self / of attributes of self (fixpoint over simple `x = <chain rooted in an alias>` bindings)
+        changed = True
+        while changed:
+            changed = False
+            for n in ast.walk(fn):
+                pairs = []
+                if isinstance(n, ast.Assign):
+                    pairs = [(t, n.value) for t in n.targets]
+                elif isinstance(n, (ast.AnnAssign, ast.NamedExpr)) and n.value is not None:
+                    pairs = [(n.target, n.value)]
+                elif isinstance(n, ast.withitem) and n.optional_vars is not None:
+                    pairs = [(n.optional_vars, n.context_expr)]
+                for t, v in pairs:
+                    # `a = b = self.x`: every Name target is an alias; the value may itself be a (walrus) assignment
+                    while isinstance(v, ast.NamedExpr):
+                        v = v.value
+                    if isinstance(t, ast.Name):
+                        c = _chain(v)
+                        if c and c[0] in self.alias and t.id not in self.alias:
+                            self.alias[t.id] = self.alias[c[0]] + c[1]
+                            changed = True
+        for n in ast.walk(fn):
+            self._visit(n)
+
+    # -- classification of one store target
+    def _store(self, target, kind):
+        if isinstance(target, (ast.Tuple, ast.List)):
+            for e in target.elts:
+                self._store(e, kind)
+            return
+        if isinstance(target, ast.Starred):
+            self._store(target.value, kind)
+            return
+        if isinstance(target, ast.Name):
+            if target.id in self.globals:
+                self.out.add(("global", target.id))
+            return
+        c = _chain(target)
+        if c is None:
+            # store into the result of an arbitrary expression, e.g. `f().x = 1`: cannot be attributed
+            self.out.add(("opaque-" + kind, ast.dump(target)[:40]))
+            return
+        root, path = c
+        item = path[-1] == "[]"
+        if root in self.alias:
+            full = self.alias[root] + path
+            owner = [p for p in full if p != "[]"]
+            if not owner:
+                # `alias[...] = v` where alias IS self: item store on the object itself
+                self.out.add((("setitem" if kind != "del" else "delitem"), "<self>"))
+                return
+            k = {"set": "setitem", "aug": "setitem", "del": "delitem"}[kind] if item else kind
+            self.out.add((k, _dotted(full)))
+        elif root not in self.locals:
+            k = {"set": "global-setitem", "aug": "global-setitem", "del": "global-delitem"}[kind] if item else "global-" + kind
+            self.out.add((k, _dotted((root,) + path)))
+        elif not item:
+            # attribute of a parameter / local object (may be a shared object handed in or looked up)
+            self.out.add(("ext-" + kind, path[-1]))
+
+    def _visit(self, n):
+        if isinstance(n, ast.Assign):
+            for t in n.targets:
+                self._store(t, "set")
+        elif isinstance(n, ast.AnnAssign):
+            if n.value is not None:
+                self._store(n.target, "set")
+        elif isinstance(n, ast.AugAssign):
+            self._store(n.target, "aug")
+        elif isinstance(n, ast.NamedExpr):
+            self._store(n.target, "set")
+        elif isinstance(n, ast.Delete):
+            for t in n.targets:
+                self._store(t, "del")
+        elif isinstance(n, (ast.For, ast.AsyncFor, ast.comprehension)):
+            self._store(n.target, "set")
+        elif isinstance(n, ast.withitem):
+            if n.optional_vars is not None:
+                self._store(n.optional_vars, "set")
+        elif isinstance(n, ast.Call):
+            f = n.func
+            if isinstance(f, ast.Name):
+                self.calls.add(f.id)
+                if f.id in SETATTR_FUNCS and n.args:
+                    c = _chain(n.args[0])
+                    if c and c[0] in self.alias:
+                        name = n.args[1].value if len(n.args) > 1 and isinstance(n.args[1], ast.Constant) else "<computed>"
+                        self.out.add(("setattr", _dotted(self.alias[c[0]] + c[1] + (str(name),))))
+                    elif c and c[0] not in self.locals:
+                        self.out.add(("global-setattr", _dotted((c[0],) + c[1])))
+                    else:
+                        self.out.add(("ext-setattr", "<object>"))
+            elif isinstance(f, ast.Attribute):
+                self.calls.add(f.attr)
+                if f.attr in MUTATORS:
+                    c = _chain(f.value)
+                    if c and c[0] in self.alias:
+                        full = self.alias[c[0]] + c[1]
+                        if [p for p in full if p != "[]"] or f.attr.startswith("__"):
+                            self.out.add(("mut:" + f.attr, _dotted(full)))
+                    elif c and c[0] not in self.locals:
+                        self.out.add(("global-mut:" + f.attr, _dotted((c[0],) + c[1])))
+                    elif f.attr in ("__setattr__", "__delattr__") and n.args:
+                        # object.__setattr__(self, "x", v)
+                        a = _chain(n.args[0])
+                        if a and a[0] in self.alias:
+                            self.out.add(("setattr", _dotted(self.alias[a[0]] + a[1])))
+
+
+def analyse_writes():
+    """{(class, function): (sorted writes, called names)} for every function of WRITE_FILES, and the part reachable
+    from VerifyService.verify (calls resolved by name over all analysed functions; `__init__` excluded: it writes to
+    the fresh object only)"""
+    fns = {}
+    for path in WRITE_FILES:
+        tree = ast.parse(src(path))
+        for node in tree.body:
+            if isinstance(node, ast.ClassDef):
+                for m in node.body:
+                    if isinstance(m, (ast.FunctionDef, ast.AsyncFunctionDef)):
+                        static = any(isinstance(d, ast.Name) and d.id == "staticmethod" for d in m.decorator_list)
+                        w = _FnWrites(m, not static)
+                        fns[(node.name, m.name)] = (sorted(w.out), w.calls)
+            elif isinstance(node, (ast.FunctionDef, ast.AsyncFunctionDef)):
+                w = _FnWrites(node, False)
+                fns[("<module>", node.name)] = (sorted(w.out), w.calls)
+    by_name = {}
+    for (cls, name) in fns:
+        by_name.setdefault(name, []).append((cls, name))
+    if WRITE_ROOT not in fns:
+        raise ValueError("VerifyService.verify not found")
+    seen, todo = set(), [WRITE_ROOT]
+    while todo:
+        k = todo.pop()
+        if k in seen or k[1] == "__init__":
+            continue
+        seen.add(k)
+        for called in fns[k][1]:
+            todo += by_name.get(called, [])
+    return fns, sorted(seen)
+
+
+def _lean_str(s):
+    return '"' + s.replace("\\", "\\\\").replace('"', '\\"') + '"'
+
+
+@register(props=["C03"])
+def gen_sec_writes():
+    fns, reach = analyse_writes()
+    rows = [(cls, fn, kind, tgt) for (cls, fn) in reach for (kind, tgt) in fns[(cls, fn)][0]]
+    body = "namespace Generated.SecWrites\n"
+    body += ("/-- every store that outlives the call, in the functions reachable from `VerifyService.verify`\n"
+             "    (class, function, kind, target); sorted, duplicates removed -/\n")
+    body += "def verifyPathWrites : List (String × String × String × String) := [\n  " + ",\n  ".join(
+        "(" + ", ".join(_lean_str(x) for x in r) + ")" for r in rows) + "]\n"
+    own = [(fn, kind, tgt) for (cls, fn, kind, tgt) in rows if cls in ("VerifyService", "<module>")]
+    body += ("/-- … the part inside verify_service.py itself (VerifyService methods and module functions) -/\n")
+    body += "def verifyServiceWrites : List (String × String × String) := [" + ", ".join(
+        "(" + ", ".join(_lean_str(x) for x in r) + ")" for r in own) + "]\n"
+    body += "/-- number of functions the pass reached (informative; not part of an obligation) -/\n"
+    body += f"def reachedFunctions : Nat := {len(reach)}\n"
+    body += "end Generated.SecWrites\n"
+    write_if_changed("SecWrites.lean", body)
